@@ -182,7 +182,7 @@ def run(chk, rng, replay=None):
     import random
     seeds = []
     if replay is not None:
-        todo = [(replay["kind"], replay["seed"])]
+        todo = [(replay.get("kind_of_pair", replay["kind"]), replay["seed"])]
     else:
         todo = [(KINDS[i % len(KINDS)], int(rng.integers(1 << 30))) for i in range(n_pairs)]
     for kind, sd in todo:
